@@ -1,4 +1,4 @@
-use std::collections::{HashMap, HashSet};
+use std::collections::{BTreeSet, HashMap, HashSet};
 use std::fs;
 use std::path::{Path, PathBuf};
 
@@ -33,7 +33,9 @@ impl PackageLayout for FlatPackageLayout {
 pub struct PackageUnit {
     pub name: String,
     pub files: Vec<SourceFileAst>,
-    pub imports: HashSet<String>,
+    /// Ordered set: discovery seeds and extends its work list from this set, so the
+    /// iteration order decides `discovery_order` and with it the order of the emitted code.
+    pub imports: BTreeSet<String>,
 }
 
 #[derive(Debug)]
@@ -73,7 +75,7 @@ fn read_gom_sources(dir: &Path) -> Result<Vec<PathBuf>, CompilationError> {
     Ok(files)
 }
 
-fn collect_imports(files: &[SourceFileAst]) -> HashSet<String> {
+fn collect_imports(files: &[SourceFileAst]) -> BTreeSet<String> {
     files
         .iter()
         .flat_map(|file| file.ast.imports.iter())
